@@ -70,8 +70,10 @@ def run_one(hid, checks):
             os.unlink(os.path.join(VERIF, "run", "lake-lean-alt-%s.lock" % hid))
         except OSError:
             pass
-    meta["checks"] = res
-    meta["alarms"] = sorted(c for c, r in res.items() if r["exit"] != 0)
+    allres = dict(meta.get("checks") or {})
+    allres.update(res)
+    meta["checks"] = allres
+    meta["alarms"] = sorted(c for c, r in allres.items() if r["exit"] != 0)
     json.dump(meta, open(os.path.join(d, "meta.json"), "w"), indent=1)
     return hid, meta["alarms"], meta.get("test_suite_with_patch")
 
